@@ -1,6 +1,7 @@
 import NemoVerif.Drive.Common
 import NemoVerif.Models.Closed
 import NemoVerif.Models.V1Compile
+import NemoVerif.Models.V1Load
 import NemoVerif.Models.Expand
 import NemoVerif.Models.ExpandInPlace
 import NemoVerif.Models.ExpandNames
@@ -223,6 +224,20 @@ def handle (op : String) (j : Json) : Except String Json := do
     match V1Compile.dynamicFlow items with
     | .ok es => pure (Json.mkObj [("ok", Json.arr (es.map elemToJson).toArray), ("closed", V1Compile.v1Closed es)])
     | .error m => pure (Json.mkObj [("err", m)])
+  | "v1load" =>
+    -- `_load_flow_config` on compiled elements (`elems`), or `parse_flow_elements` + `_load_flow_config` on items
+    match j.getObjVal? "elems" with
+    | .ok ej =>
+      let a ← ej.getArr?
+      let es ← a.toList.mapM elemOfJson
+      let held := V1Compile.loadFlow es
+      pure (Json.mkObj [("ok", Json.arr (held.map elemToJson).toArray), ("closed", V1Compile.v1Closed held)])
+    | .error _ =>
+      let a ← (← j.getObjVal? "items").getArr?
+      let items ← a.toList.mapM itemOfJson
+      match V1Compile.loadedFlow items with
+      | .ok es => pure (Json.mkObj [("ok", Json.arr (es.map elemToJson).toArray), ("closed", V1Compile.v1Closed es)])
+      | .error m => pure (Json.mkObj [("err", m)])
   | "expand" =>
     let a ← (← j.getObjVal? "stmts").getArr?
     let ss ← a.toList.mapM stmtOfJson
